@@ -66,6 +66,11 @@ type ReaderScn struct {
 	// (io.Reader: "even if Read returns n < len(p), it may use all of p as
 	// scratch space during the call"): "" | garbage | newline | nul | data
 	Scribble string `json:"scribble,omitempty"`
+	// Rich: the reader also offers io.WriterTo, io.ByteReader and Len() (what
+	// *bytes.Reader, *strings.Reader and *bufio.Reader look like to a callee
+	// that probes for fast paths); all of them serve the same stream, schedule
+	// and fault
+	Rich bool `json:"rich,omitempty"`
 }
 
 type WriterScn struct {
